@@ -854,6 +854,17 @@ func runC18(r *RunCtx) error {
 			c18Op{Kind: "block", Signer: 1, Creator: B, ToBlock: []string{}},
 			c18Op{Kind: "create", Signer: 2, Creator: C, To: "junk.jkl", Contents: `{"n":14}`},
 			c18Op{Kind: "create", Signer: 2, Creator: C, To: D, Contents: `not json`},
+			// deletes that carry no time ("0"), an empty sender or a sender that is a prefix of other addresses remove
+			// nothing else: A's inbox keeps its other entries and A's block list stays (B, C and D are still refused)
+			"advance",
+			c18Op{Kind: "delete", Signer: 0, Creator: A, From: B, Time: 0},
+			c18Op{Kind: "delete", Signer: 0, Creator: A, From: C, Time: 0},
+			c18Op{Kind: "delete", Signer: 0, Creator: A, From: "", Time: 0},
+			c18Op{Kind: "delete", Signer: 0, Creator: A, From: B[:8], Time: 0},
+			c18Op{Kind: "create", Signer: 1, Creator: B, To: A, Contents: `{"n":15}`}, // still blocked
+			c18Op{Kind: "create", Signer: 2, Creator: C, To: A, Contents: `{"n":16}`}, // still blocked
+			c18Op{Kind: "delete", Signer: 1, Creator: B, From: A, Time: 0},
+			c18Op{Kind: "delete", Signer: 1, Creator: B, From: "", Time: 0},
 		}
 		for _, s := range steps {
 			switch v := s.(type) {
